@@ -31,11 +31,17 @@ fn restricted(got: &[i64], script: &[i64]) -> Vec<i64> {
 }
 
 fn subj_scn(kind: SubjKind, producers: Vec<Vec<i64>>, roles: Vec<Role>, q: Option<u32>, t: Option<u32>) -> Scn {
+  subj_scn_x(kind, producers, roles, false, q, t)
+}
+
+/// `shared`: every observer subscribes through one and the same Observable value
+fn subj_scn_x(kind: SubjKind, producers: Vec<Vec<i64>>, roles: Vec<Role>, shared: bool, q: Option<u32>, t: Option<u32>) -> Scn {
   let name = format!(
-    "c12/{:?} {} obs[{}]",
+    "c12/{:?} {} obs[{}]{}",
     kind,
     producers.iter().map(|p| format!("P{:?}", p)).collect::<Vec<_>>().join("||"),
-    roles.iter().map(|r| format!("{:?}", r)).collect::<Vec<_>>().join(",")
+    roles.iter().map(|r| format!("{:?}", r)).collect::<Vec<_>>().join(","),
+    if shared { " one Observable value" } else { "" }
   );
   let family = format!("{:?}-subject", kind).to_lowercase();
   scn(&name, &family, q, t, move || {
@@ -48,20 +54,25 @@ fn subj_scn(kind: SubjKind, producers: Vec<Vec<i64>>, roles: Vec<Role>, q: Optio
     let (producers2, roles2) = (producers.clone(), roles.clone());
     let body: Body = Box::new(move || {
       let sbj = AnySubject::new(kind);
+      let one = sbj.observable();
+      let observable = {
+        let (sbj, one) = (sbj.clone(), one.clone());
+        move || if shared { one.clone() } else { sbj.observable() }
+      };
       let mut hs = vec![];
       let mut subs = vec![];
       for (i, r) in roles2.iter().enumerate() {
         match r {
-          Role::Resident | Role::Leaving => subs.push((i, recs2[i].sub_i64(&sbj.observable()))),
+          Role::Resident | Role::Leaving => subs.push((i, recs2[i].sub_i64(&observable()))),
           Role::Late => {}
         }
       }
       for (i, r) in roles2.iter().enumerate() {
         match r {
           Role::Late => {
-            let (s, rec, st) = (sbj.clone(), recs2[i].clone(), stamps2.clone());
+            let (s, rec, st) = (observable(), recs2[i].clone(), stamps2.clone());
             hs.push(thread::spawn(move || {
-              let _sub = rec.sub_i64(&s.observable());
+              let _sub = rec.sub_i64(&s);
               st.mark(&format!("subscribed:{}", i));
             }));
           }
@@ -218,6 +229,9 @@ pub fn scenarios() -> Vec<Scn> {
       v.push(with_seed(subj_scn(k, vec![vec![1, 2]], vec![Role::Resident, Role::Leaving], Some(2), Some(3)), h));
       v.push(with_seed(subj_scn(k, vec![vec![1, 2]], vec![Role::Leaving, Role::Resident], None, Some(3)), h));
     }
+    // one Observable value for every observer: an earlier subscriber leaves, a later one stays (and vice versa)
+    v.push(subj_scn_x(k, vec![vec![1, 2]], vec![Role::Leaving, Role::Resident], true, Some(2), Some(3)));
+    v.push(subj_scn_x(k, vec![vec![1, 2]], vec![Role::Resident, Role::Leaving], true, Some(2), Some(3)));
     v.push(subj_scn(k, vec![vec![1, 2], vec![3, 4]], vec![Role::Late], None, Some(3)));
     v.push(subj_scn(k, vec![vec![1, 2], vec![3, 4]], vec![Role::Late, Role::Leaving], None, Some(2)));
     v.push(subj_scn(k, vec![vec![1, 2, 3]], vec![Role::Late], None, Some(3)));
